@@ -234,7 +234,10 @@ def run_shard(sink, tier, seed, shard):
     n = harness.scale(24000, 400000, tier)
     i0, step = (shard or {}).get('i', 0), (shard or {}).get('n', 1)
     for idx in range(i0, n, step):
-        sink.guard('harness', 'case', dict(index=idx), lambda: check_case(sink, seed, idx))
+        with harness.reentrant(idx % 8 == 0):  # an eighth of the cases with callbacks that call back into optree
+            sink.guard('harness', 'case', dict(index=idx), lambda: check_case(sink, seed, idx))
+        if idx % 8 == 0:
+            sink.count('cases-with-re-entrant-callbacks')
 
 
 def finalize(sink, tier, seed):
